@@ -68,6 +68,10 @@ def cases(tier, seed):
     out.append({"id": "interpolation-modes", "kind": "interp"})
     out.append({"id": "lens-orders", "kind": "orders", "tier": tier})
     out.append({"id": "numexpr-shim", "kind": "shim"})
+    # detector planes that are not at z = 0
+    for zd in (0.7, -0.4):
+        out.append({"id": "detector-plane:z=%r" % zd, "kind": "detz",
+                    "zd": zd})
     # detectors with more points than fit one block of the wrapper's
     # integrand (36x36, 40x30, 33x31 points)
     for shp in ((36, 36), (40, 30), (33, 31), (25, 41)):
@@ -272,6 +276,35 @@ def _run_ab0(case, ck):
     return digest(*fps)
 
 
+def _run_detz(case, ck):
+    """the detector points sit in a plane z = zd != 0: only the distance
+    between particle and plane may matter"""
+    from holopy.scattering.theory import MieLens, Lens, Mie
+    from holopy.scattering import Sphere
+    zd = case["zd"]
+    fps = []
+    for m, x, kz, ang in ((1.2, 5.0, 20.0, 0.8), (1.5, 20.0, -20.0, 1.0)):
+        _, pts = _setup(m, x, kz)
+        pts = pts[:12].copy()
+        pts[:, 2] = zd
+        sph = Sphere(n=m * H.NMED, r=x / H.K, center=(0.0, 0.0,
+                                                      kz / H.K + zd))
+        det = H.det_points(pts)
+        for pa in (0.0, 30.0):
+            a = _field(det, sph, MieLens(ang), _pol(pa))
+            b = _field(det, sph, Lens(ang, Mie(False, False), 64, 64),
+                       _pol(pa))
+            ck.trans += 2
+            e = float(np.abs(a - b).max() / np.abs(b).max())
+            ck.metric("mielens-vs-lens", e)
+            ck.true("mielens-vs-lens", e <= TOLERANCES["mielens-vs-lens"],
+                    "detector plane at z=%r: MieLens differs from Lens(Mie) "
+                    "by %.2e (m=%r x=%r kz=%r angle=%r pol=%g)" %
+                    (zd, e, m, x, kz, ang, pa))
+            fps.append(fp_values(a))
+    return digest(*fps)
+
+
 def _run_largedet(case, ck):
     """Lens(Mie) on a detector of > 1000 pixels: every pixel must agree with
     the analytic theory and with the same pixel evaluated in a small call"""
@@ -449,7 +482,7 @@ def run_case(case):
     ck = Checker()
     fp = {"vec": _run_vec, "ab0": _run_ab0, "interp": _run_interp,
           "orders": _run_orders, "shim": _run_shim, "cutoff": _run_cutoff,
-          "largedet": _run_largedet,
+          "largedet": _run_largedet, "detz": _run_detz,
           "history": _run_history}[case["kind"]](case, ck)
     return ck.result(fp=fp)
 
